@@ -77,7 +77,7 @@ func (c S3ApiController) ListBuckets(ctx *fiber.Ctx) error {
 	var maxBuckets int32 = 10000
 	if maxBucketsStr != "" {
 		maxBucketsParsed, err := strconv.ParseInt(maxBucketsStr, 10, 32)
-		if err != nil || maxBucketsParsed < 0 || maxBucketsParsed > 10000 {
+		if err != nil || maxBucketsParsed < 1 || maxBucketsParsed > 10000 {
 			if c.debug {
 				debuglogger.Logf("error parsing max-buckets %q: %v", maxBucketsStr, err)
 			}
